@@ -185,9 +185,10 @@ def options(maxlen: int) -> list[str]:
 
 def tuples(tier: str) -> Iterator[tuple[str, ...]]:
     """Base tuples, every single deviation (length <= 2; thorough <= 3) and every double
-    deviation with one-character replacements (thorough: one- and two-character)."""
+    deviation with one-character replacements (quick: from the default tuple only; thorough: from all 5 bases).
+    (Two-character double deviations were planned for thorough: 8.5e8 cases, it never completed - dropped.)"""
     single = options(2 if tier == "quick" else 3)
-    double = options(1 if tier == "quick" else 2)
+    double = options(1)
     seen: set[tuple[str, ...]] = set()
     for base in BASES:
         if base not in seen:
@@ -424,7 +425,7 @@ class C11(Check):
     rule = (
         "A: 37 abstract templates (text/tag/output/comment/raw/doc/liquid/inline-comment segments with whitespace "
         "control) printed with every admissible delimiter 6-tuple within <=2 deviations of 5 base tuples (single "
-        "deviations of length<=2 (thorough 3), double deviations of length 1 (thorough 2)) over a 23-character alphabet "
+        "deviations of length<=2 (thorough 3), double deviations of length 1 from the default tuple (thorough: from all bases)) over a 23-character alphabet "
         "of punctuation/letters/regex metacharacters; admissibility = explicit non-collision predicate incl. no shared "
         "character with the template. B: all histories of length<=3 (thorough 4) over 39 operations (parse+render, "
         "Template(), new environment, re-render) on 6 configurations, run in forked pristine processes. states = history "
